@@ -296,6 +296,7 @@ fn run_case<P: Proto>(v: Variant, ops: &[Op], lim: &Limits) -> PResult {
         .class_if(sim.stats.resend_datagrams > 0, "resend_datagrams")
         .class_if(st.connless > 0, "connless")
         .class_if(st.close > 0, "close")
+        .class_if(sim.stats.wrapped, "sequence_wrapped")
         .class_if(aborted, "aborted_by_other_oracle"))
 }
 
@@ -357,6 +358,16 @@ pub fn run(ctx: &Ctx) {
     for v in VARIANTS {
         let lim = if v == Variant::V7 { &lim7 } else { &lim6 };
         ctx.prop(&format!("calls/{}", v.name()), ctx.n(3000, 60_000), || case_strategy(max_ops), |c: &Case| check(v, c, lim));
+    }
+    // histories through the 1024 sequence wrap (sequence numbers on the wire are checked against the model)
+    for v in VARIANTS {
+        let lim = if v == Variant::V7 { &lim7 } else { &lim6 };
+        ctx.prop(
+            &format!("wrap/{}", v.name()),
+            ctx.n(100, 2000),
+            || wrap_history_strategy(1000).prop_map(|ops| Case { ops }),
+            |c: &Case| check(v, c, lim),
+        );
     }
     // single chunk of every length, vital and not, all variants: sent, flushed, lost, resent
     let max = ctx.n(1500, 2100);
